@@ -10,3 +10,5 @@ import Gleece.Properties.C04
 #print axioms Gleece.Reduce.default_applies
 #print axioms Gleece.Reduce.effective_empty_iff
 #print axioms Gleece.Reduce.own_security_in_order
+#print axioms Gleece.Reduce.reduce_is_effective
+#print axioms Gleece.Reduce.source_doc_eq_enforced
